@@ -262,12 +262,13 @@ class TensorGen:
         self.eg = ExprGen(rng, syms)
         self.ndarray_data = ndarray_data
         self.count = 0
+        self.maxdeg = 2         # degree bound of the integer polynomials (polyonly)
 
     def entry(self, p_sym):
         r = self.rng
         if r.random() < p_sym:
             if self.polyonly:
-                return self.eg.int_poly()
+                return self.eg.int_poly(self.maxdeg)
             return r.choice([self.eg.affine, self.eg.poly, self.eg.poly, self.eg.nonlinear])()
         return r.choice([0, 0, 1, 1, 2, -1])
 
@@ -280,7 +281,7 @@ class TensorGen:
         p = (0.45 if symbolic else 0.0)
         flat = [self.entry(p) for _ in range(size)]
         if symbolic and not any(hasattr(e, "free_symbols") and e.free_symbols for e in flat):
-            flat[r.randrange(size)] = self.eg.int_poly() + r.choice(self.syms) if self.polyonly \
+            flat[r.randrange(size)] = self.eg.int_poly(self.maxdeg) + r.choice(self.syms) if self.polyonly \
                 else self.eg.affine() + r.choice(self.syms) * 2
         name = "f%d" % self.count
         self.count += 1
